@@ -2,6 +2,7 @@ package c07
 
 import (
 	"fmt"
+	"net/url"
 	"path"
 	"path/filepath"
 	"strings"
@@ -246,6 +247,17 @@ func oracleServe(c serveCase, o serveObs) []core.Failure {
 			fs = append(fs, fail("passthru-after-writing", "request path %q: passed on after writing %q", c.path, o.body))
 		}
 	case "redirect":
+		// the Location is a path on the same origin: exactly one leading slash, and no client
+		// would read a scheme or an authority out of it
+		if strings.HasPrefix(c.orig, "/") && c.orig != "/" {
+			bad := !strings.HasPrefix(o.location, "/") || strings.HasPrefix(o.location, "//")
+			if u, err := url.Parse(o.location); err == nil && (u.Scheme != "" || u.Host != "") {
+				bad = true
+			}
+			if bad {
+				fs = append(fs, fail("redirect-location-leaves-origin", "request %q (query %q): redirected to %q, which is not a path on the same origin", c.orig, c.query, o.location))
+			}
+		}
 		// the redirect must not reveal a hidden target: the last name that exists is the target
 		for i := len(m.opened) - 1; i >= 0; i-- {
 			if _, abs, err := m.lookup(m.opened[i]); err == nil {
@@ -361,6 +373,17 @@ func serveTags(c serveCase, o serveObs) []string {
 	}
 	if !strings.HasPrefix(c.root, "/") {
 		t = append(t, "serve:relative-root")
+	}
+	if kindOf == "redirect" {
+		if strings.HasPrefix(c.orig, "//") {
+			t = append(t, "serve:redirect-from-double-slash-original")
+		}
+		if c.query != "" {
+			t = append(t, "serve:redirect-with-query")
+		}
+		if _, err := url.Parse(c.orig); err != nil {
+			t = append(t, "serve:redirect-original-unparsable")
+		}
 	}
 	if c.phRoot {
 		t = append(t, "serve:root-from-placeholder")
